@@ -120,7 +120,7 @@ func filterAllows(f map[string]bool, event string) bool {
 var caseNo int
 
 func keyName(k int) string {
-	names := []string{"alpha", "dir/beta", "gamma with space", "δelta", "epsilon+plus", "zeta/eta/theta"}
+	names := []string{"alpha", "dir/beta", "gamma with space", "δelta", "epsilon+plus", "zeta/eta/theta", "report%41", "pct%2Fname%"}
 	return fmt.Sprintf("%s-%d", names[k%len(names)], k)
 }
 
